@@ -41,8 +41,11 @@ for it in items:
         spec = runlib.Spec(it["yaml"])
         t1 = spec.compile(arch=it.get("arch", False))
         # same objects compiled twice in one process
-        t2 = spec.compile(arch=it.get("arch", False))
-        out.append({"text": t1, "twice_equal": t1 == t2})
+        try:
+            t2 = spec.compile(arch=it.get("arch", False))
+            out.append({"text": t1, "twice_equal": t1 == t2})
+        except Exception as e2:
+            out.append({"text": t1, "twice_equal": False, "second_error": type(e2).__name__ + ": " + str(e2)[:100]})
     except Exception as e:
         out.append({"error": type(e).__name__ + ": " + str(e)[:100]})
 json.dump(out, open(sys.argv[2], "w"))
